@@ -65,11 +65,10 @@ func (v *V2) Inject(n codec.Node, yaml bool) (jd.JsonNode, error) {
 	if n.IsVoid() {
 		return v.void, nil
 	}
-	txt := v.T.Text(n)
 	if yaml {
-		return jd.ReadYamlString(txt)
+		return jd.ReadYamlString(v.T.Text(n))
 	}
-	return jd.ReadJsonString(txt)
+	return jd.ReadJsonString(v.T.Spell(n, false))
 }
 
 // InjectB is Inject for the b side of a pair.
@@ -77,11 +76,10 @@ func (v *V2) InjectB(n codec.Node, yaml bool) (jd.JsonNode, error) {
 	if !v.NegZeroB || n.IsVoid() {
 		return v.Inject(n, yaml)
 	}
-	txt := v.T.TextNZ(n)
 	if yaml {
-		return jd.ReadYamlString(txt)
+		return jd.ReadYamlString(v.T.TextNZ(n))
 	}
-	return jd.ReadJsonString(txt)
+	return jd.ReadJsonString(v.T.Spell(n, true))
 }
 
 func (v *V2) MustInject(n codec.Node) jd.JsonNode {
